@@ -597,7 +597,7 @@ func (prop) Drive(d *core.Driver) error {
 	for i := range tupleAlphabet {
 		cases = append(cases, core.NewCase(fmt.Sprintf("tuples-%02d", i), caseData{Kind: "tuples", First: i}))
 	}
-	nr := d.N(40, 600)
+	nr := d.N(20, 600)
 	per := d.N(1000, 3000)
 	for i := 0; i < nr; i++ {
 		cases = append(cases, core.NewCase(fmt.Sprintf("random-%d", i), caseData{Kind: "random", Seed: d.Seed*1000003 + int64(i), N: per}))
